@@ -38,6 +38,9 @@ func baseArgs(s *propSpec, b *build) []string {
 	if *flagMode != "" {
 		args = append(args, "-mode", *flagMode)
 	}
+	if libSpawnsGoroutines(b) {
+		args = append(args, "-libgo")
+	}
 	return args
 }
 
@@ -160,4 +163,11 @@ func selfTest(spec *propSpec, b *build) int {
 	}
 	fmt.Println("selftest ok:", a.counters)
 	return 0
+}
+
+// libSpawnsGoroutines reports whether the instrumenter turned go statements of
+// the code under test into simulator tasks.
+func libSpawnsGoroutines(b *build) bool {
+	n, _ := b.instr["go_stmts"].(float64)
+	return n > 0 && b.degraded == ""
 }
